@@ -193,6 +193,33 @@ def pairing_and_filter(check, P, cls_name, n_samples=4):
                             f"_interpolate_line evaluates the interpolator directly ({I.tag(direct[0].data['args'][0])[:60]}, ...) instead of through get_depth_at: "
                             "samples outside the image carry the clamped edge height instead of zero", [decisions_text(path)])
             continue
+        stacks = [e for e in path.trace if e.kind == "NOTE" and e.data.get("what") == "column_stack" and len(e.data.get("items", ())) == 3]
+        if direct and not items and stacks:
+            # vectorised form: column_stack((xs, ys, heights)) with one interpolator call for all samples
+            xs, ys, hs = stacks[-1].data["items"]
+            call = direct[-1].data
+            saved = I.heap
+            I.heap = path.heap
+            try:
+                res = I.tag(call.get("result"))
+                same_xy = [I.tag(a) for a in call["args"][:2]] == [I.tag(xs), I.tag(ys)]
+                ht = I.tag(hs)
+                scaled = ht in (f"mult(hm._scale_z, {res})", f"mult({res}, hm._scale_z)")
+            finally:
+                I.heap = saved
+            paired += 1
+            if not same_xy:
+                check.violation("R3", f"{short}:sample-pairing", f"the samples pair ({I.tag(xs)[:50]}, {I.tag(ys)[:50]}) with heights evaluated at other coordinates", [decisions_text(path)])
+            elif scaled:
+                check.ok("R3", f"{short}: samples (xs, ys, scale * interpolator(xs, ys)), vectorised")
+            elif ht == res:
+                check.violation("R3", f"{short}:samples-unscaled",
+                                "_interpolate_line pairs the samples with the raw interpolator values instead of get_depth_at(x, y) = scale * value: "
+                                "the tolerance filter compares unscaled heights", [decisions_text(path)])
+            else:
+                check.undecided("R3", f"{short}: vectorised sample heights {ht[:80]} not recognised")
+                check.floor(False, f"C19.R3: {cls_name}._interpolate_line builds its samples in a form the analysis does not recognise")
+            continue
         if not items:
             continue
         for t in items:
@@ -209,6 +236,43 @@ def pairing_and_filter(check, P, cls_name, n_samples=4):
                 paired += 1
     check.floor(paired >= 1, f"C19.R3: no path sample analysed for {cls_name}")
     del I.intrinsics[f"{cls_name}.get_depth_at"]
+    # ---- R3 composition: sample_path = filter(interpolate(line), tolerance), returned untouched
+    SAMPLES, KEPT = Unk("samples-of-the-line", "array"), Unk("kept-samples", "array")
+    seen_calls = []
+
+    def rec(tag, result):
+        def h(I_, fv, a, k, node):
+            I_.emit("CALL", node, func=tag, args=tuple(a), kwargs=dict(k))
+            return result
+        return h
+    I.intrinsics[f"{cls_name}._interpolate_line"] = rec("_interpolate_line", SAMPLES)
+    I.intrinsics[f"{cls_name}._filter_points"] = rec("_filter_points", KEPT)
+    composed = 0
+    for path in I.explore(lambda I: None, lambda I_, _: W.call_method(I_, "hm", "sample_path", (Unk("arg.line", "array"),)), max_dev=None, max_paths=200):
+        n += 1
+        if path.outcome != "return":
+            continue
+        composed += 1
+        ci = [e for e in path.trace if e.kind == "CALL" and e.data.get("func") == "_interpolate_line"]
+        cf = [e for e in path.trace if e.kind == "CALL" and e.data.get("func") == "_filter_points"]
+        muts = [e for e in path.trace if e.kind == "MUT" and e.data.get("obj") in (SAMPLES, KEPT)]
+        saved = I.heap
+        I.heap = path.heap
+        try:
+            ok = (len(ci) == 1 and len(cf) == 1 and cf[0].data["args"][1:2] == (SAMPLES,)
+                  and [I.tag(x) for x in cf[0].data["args"][2:]] + [I.tag(v) for v in cf[0].data["kwargs"].values()] == ["hm._tolerance"]
+                  and path.value == KEPT and not muts)
+            what = (f"interpolate x{len(ci)}, filter{tuple(I.tag(x)[:40] for x in cf[0].data['args'][1:]) if cf else '()'} x{len(cf)}, returns {I.tag(path.value)[:60]}"
+                    + (f", modifies the samples afterwards ({muts[0].data.get('method')})" if muts else ""))
+        finally:
+            I.heap = saved
+        if ok:
+            check.ok("R3", f"{short}: sample_path returns _filter_points(_interpolate_line(line), tolerance) untouched")
+        else:
+            check.violation("R3", f"{short}:sample-path-composition", f"sample_path does not return the tolerance-filtered samples of the line as they are: {what}", [decisions_text(path)])
+    check.floor(composed >= 1, f"C19.R3: sample_path of {cls_name} has no accepting path")
+    del I.intrinsics[f"{cls_name}._interpolate_line"]
+    del I.intrinsics[f"{cls_name}._filter_points"]
     # ---- R4 filter
     I.loop_unroll = 1
     pts = [Tup((Num(Poly.sym(f"x{i}")), Num(Poly.sym(f"y{i}")), Num(Poly.sym(f"z{i}")))) for i in range(n_samples)]
